@@ -1,7 +1,9 @@
 """C13 - Lazy access: I/O proportional to the request, correct at multi-terabyte scale."""
 from __future__ import annotations
 
+import os
 import struct
+from pathlib import Path
 
 from vf.core import D, SECTOR, T, Z, BudgetExceeded, Layer, Model, PatternGen, ProxyFile, SparseFile, rng_for
 from vf.diskcheck import mismatch_detail
@@ -42,7 +44,17 @@ MINIMA = {"quick": {"reads_compared": 500, "second_pass_requests": 200, "cases_b
 MECH = "lazy-io"
 BUF = 8192
 TIB = 1 << 40
-FORMATS = ["qcow2-64k", "qcow2-2m", "vhdx", "vhdx-4k", "vmdk-hosted", "vmdk-sesparse", "vmdk-flat", "vhd-fixed", "vhd-dyn", "vdi", "hds-v2", "hds-v1", "qcow2-comp", "vmdk-stream", "qcow2-snap"]
+FORMATS = ["qcow2-64k", "qcow2-2m", "vhdx", "vhdx-4k", "vmdk-hosted", "vmdk-sesparse", "vmdk-flat", "vhd-fixed", "vhd-dyn", "vdi", "hds-v2", "hds-v1", "qcow2-comp", "vmdk-stream", "qcow2-snap", "vhdx-diff", "qcow2-16k", "qcow2-32k"]
+
+
+TMPDIRS: list = []  # directories holding on-disk parents; removed at the end of each case
+
+
+def worker_fini(ctx):
+    import shutil
+
+    while TMPDIRS:
+        shutil.rmtree(TMPDIRS.pop(), ignore_errors=True)
 
 
 def plan(tier: str, seed: int) -> list[dict]:
@@ -130,6 +142,55 @@ def build(fmt: str, rng):
     """-> (opener(handle) -> stream, backing SparseFile(s), model, meta)"""
     tag = rng.getrandbits(48)
     compressed_unit = 0
+    if fmt == "vhdx-diff":
+        # a multi-terabyte differencing disk: partially present blocks (sector bitmaps) far beyond the first chunk, the parent
+        # located by path next to the (in-memory, byte-counted) child
+        import tempfile
+
+        from dissect.hypervisor.disk.vhdx import VHDX
+        from vf import chains
+
+        bs, ss = 8 << 20, 512
+        spb = bs // ss
+        ratio = (2**23 * ss) // bs
+        n = (4 * TIB) // bs + rng.randrange(1, 9)
+        hot_b = sorted({1, ratio + 1, 3 * ratio + 5, n - 2, (1 << 41) // bs + 3, rng.randrange(ratio, n)})
+        pst, cst = [0] * n, [0] * n
+        partial = {}
+        for b_ in hot_b:
+            pst[b_] = 6
+            cst[b_] = rng.choice([7, 7, 7, 0, 6])
+            if cst[b_] == 7:
+                partial[b_] = chains.bitmap_flags(rng, spb)
+        if 7 not in cst:
+            cst[hot_b[2]] = 7
+            partial[hot_b[2]] = chains.bitmap_flags(rng, spb)
+        d = Path(tempfile.mkdtemp(prefix="vf-c13-", dir=os.environ.get("VF_CASE_TMP")))
+        TMPDIRS.append(d)
+        psf, player, pmeta = wvhdx.build(rng, block_size=bs, sector_size=ss, nblocks=n, states=pst, placement="shuffle", tag=tag, checksums=False,
+                                         far_mb=rng.choice([1 << 13, 1 << 20]))
+        psf.write_to(d / "base.vhdx")
+        loc = wvhdx.parent_locator([("parent_linkage", "{83ed0ec1-24c8-49a6-a959-5e4bd1288015}"), ("relative_path", ".\\base.vhdx")])
+        sf, layer, meta = wvhdx.build(rng, block_size=bs, sector_size=ss, nblocks=n, states=cst, placement="shuffle", tag=tag + 1, checksums=False,
+                                      has_parent=True, locator=loc, partial=partial, far_mb=rng.choice([1 << 13, 1 << 21]), stale_offsets=False)
+        info = {"size": meta["size"], "metadata_bytes": meta["metadata_bytes"] + (1 << 20), "unit": bs, "hot": [b_ * bs + rng.choice([0, 512 * 77, bs - 4096]) for b_ in hot_b],
+                "max_off": sf.end, "name": str(d / "child.avhdx")}
+        return (lambda fh: VHDX(fh)), sf, Model(meta["size"], [layer, player]), info
+    if fmt in ("qcow2-16k", "qcow2-32k"):
+        # small clusters at multi-terabyte sizes: L1 tables of several MiB (well within the format's limits)
+        from dissect.hypervisor.disk.qcow2 import QCow2
+
+        cb = 14 if fmt == "qcow2-16k" else 15
+        cs = 1 << cb
+        size = (9 if cb == 14 else 40) * TIB + SECTOR * rng.randrange(0, cs // SECTOR)
+        ncl = -(-size // cs)
+        hot_cl = {0, 1, ncl - 1, (1 << 32) // cs, (1 << 41) // cs, ncl // 2} | {rng.randrange(ncl) for _ in range(4)}
+        kinds = {g: rng.choice("NNZ") for g in hot_cl}
+        kinds.update({g: "N" for g in range(2, 40)})
+        view = wq.make_view(rng, size=size, cluster_bits=cb, kinds=kinds, extl2=False, tag=tag)
+        img, _, meta = wq.build(rng, cluster_bits=cb, size=size, views=[view], version=3, placement="shuffle", far_base=rng.choice([1 << 32, 1 << 40]), far_frac=0.7, tuned_frac=0.0)
+        info = {"size": size, "metadata_bytes": meta["metadata_bytes"], "unit": cs, "hot": [g * cs for g in sorted(hot_cl)], "max_off": meta["max_host_off"]}
+        return (lambda fh: QCow2(fh)), img, Model(size, [view.layer]), info
     if fmt == "qcow2-snap":
         # internal snapshots of a 20 TiB image whose snapshot table, L1/L2 tables and clusters all sit beyond 4 GiB
         # (up to tens of TiB) in the file; one of the later snapshots is the stream under test
@@ -295,6 +356,10 @@ def run(case: dict, ctx) -> dict:
     res = {"cnt": {}, "viol": [], "sets": {}}
     cnt = res["cnt"]
     rng = rng_for(ctx.seed, ID, case["fmt"], case["r"])
+    while TMPDIRS:
+        import shutil
+
+        shutil.rmtree(TMPDIRS.pop(), ignore_errors=True)
     opener, sf, model, info = build(case["fmt"], rng)
     buf = ustream.STREAM_BUFFER_SIZE
     size = info["size"]
@@ -318,7 +383,7 @@ def run(case: dict, ctx) -> dict:
         second.append((o2_, max(1, min(rng.choice([1, 512, 700, 4096]), min(base_u + unit, size) - o2_))))
     allreqs = reqs + second
     budget = int(2.2 * info["metadata_bytes"]) + sum(8 * (min(n, size - o) + 2 * buf) + 2 * cu for o, n in allreqs) + (128 << 10)
-    fh = ProxyFile(sf.open(), budget=budget)
+    fh = ProxyFile(sf.open(), budget=budget, name=info.get("name"))
     try:
         o = call(opener, fh)
         if not o.ok:
@@ -371,6 +436,10 @@ def run(case: dict, ctx) -> dict:
     res["sets"]["virtual_sizes_tib"] = [round(size / TIB, 2)]
     res["sets"]["max_file_offset_touched_log2"] = [f"{case['fmt']}:2^{max(fh.max_off, 1).bit_length() - 1}"]
     res["nontrivial"] = size >= TIB or fh.max_off > (1 << 32)
+    while TMPDIRS:
+        import shutil
+
+        shutil.rmtree(TMPDIRS.pop(), ignore_errors=True)
     res["sig"] = (case["fmt"], case["r"], size, fh.max_off)
     res["sample"] = {"format": case["fmt"], "virtual_size": size, "metadata_bytes": info["metadata_bytes"], "bytes_read": total, "budget": budget,
                      "open_bytes": open_bytes, "max_file_offset_touched": fh.max_off, "requests": reqs[:4], "bytes_per_request": per_req[:4]}
